@@ -61,6 +61,11 @@ CHECKS["C06"] = dict(
   text="Every accepting return of DecodeWIF knows 37<=len<=38; the compressed flag is set only where len==38 and decoded[33]==0x01; acceptance lies behind the full 4-byte SHA256d comparison over decoded[:len-4] on each length alternative; the scalar in WIF.String() is padded to 32 bytes; the network byte is one field written from Params.PrivateKeyID / decoded[0], tested by IsForNet against the same Params field and emitted first; SerializePubKey serialises compressed exactly on the flag. Round-trip equality and that the public point belongs to the key are not decided.",
   note="Trusted: base58 (C07), bchec serialisers, DoubleHashB.",
   ref="§3 C06")
+CHECKS["C01"] = dict(
+  technique="constant-table evaluation against the specifications, inter-procedural symbolic tracing of what each EncodeAddress hands to the packer / Base58Check (address-type constant, byte windows), matching against the decode arms and classifier of DecodeAddress, writer/reader field agreement, symbolic digest composition",
+  text="Alphabet and decode tables agree symbol by symbol with the specifications; for every address type the encoder's (address-type constant, bytes arriving after every re-slice) is accepted by the packer, loses no byte of the type's hash array and is mapped back by a reachable decode arm to the same Go type, with packer and classifier agreeing on version bytes; the hex public-key arm uses the curve package's key lengths and String/ScriptAddress share one serialiser; IsForNet tests the Params field the constructors store; script-taking constructors hash with RIPEMD160(SHA256) / SHA256(SHA256). The unfinished P2SH32 support is reported as five KNOWN-FINDING entries. String equality for every hash, convertBits arithmetic and the Base58 radix conversion are not decided.",
+  note="Trusted: CashAddr / Base58Check constants; chaincfg.Params field names. Known finding K1 (P2SH32 truncation, dead decode arms) is listed in known_findings.json.",
+  ref="§3 C01, §6 K1")
 
 NA_REASON = {
  "C17": "Every clause with content is a statement about IEEE-754 rounding of f*1e8, a/10^k and shortest-decimal printing over 2.1e15 integers; no fact about the shape of amount.go implies or refutes it, and the two shape-level clauses (NaN/Inf rejected, unit labels) are already pinned by the suite (DESIGN.md §4).",
